@@ -103,7 +103,9 @@ RoleGrants(S, r, q) ==
 RbacGrants(S, q) ==
     \E g \in S.mine : /\ S.team[g].st = "on"
                       /\ \E r \in Roles : S.role[r].team = g /\ RoleGrants(S, r, q)
+\* checkRBACPermissionCached denies a disabled token; the token fallback (checkOSSPermission) does not look
 PolicyOn(S, perms, q) == Has(perms, q.perm) \/ RbacGrants(S, q)
+PolicyOff(S, perms, q) == Has(perms, q.perm)
 
 \* loadTokenRBACData on the current tables
 Load(t) == [valid |-> TRUE, team |-> team, role |-> role, mp |-> mp,
@@ -113,9 +115,12 @@ NoSnap  == [valid |-> FALSE, team |-> [g \in Teams |-> NoTeam], role |-> [r \in 
 NoDec   == [valid |-> FALSE, d |-> [i \in 1..NReq |-> FALSE]]
 
 \* what the policy says on the stored state (cache-free)
-Truth(t) == [authn |-> tok[t].st = "on",
-             d |-> IF tok[t].st = "on" THEN [i \in 1..NReq |-> PolicyOn(Load(t), tok[t].perms, ReqOf(i))]
-                   ELSE [i \in 1..NReq |-> FALSE]]
+\* A revoked (disabled) token no longer authenticates, but its stored TokenInfo (enabled = false)
+\* can still be handed to CheckPermission (GetTokenByID): `stored` says such checks are made.
+Truth(t) == [authn |-> tok[t].st = "on", stored |-> tok[t].st = "off",
+             d |-> CASE tok[t].st = "on"  -> [i \in 1..NReq |-> PolicyOn(Load(t), tok[t].perms, ReqOf(i))]
+                     [] tok[t].st = "off" -> [i \in 1..NReq |-> PolicyOff(Load(t), tok[t].perms, ReqOf(i))]
+                     [] OTHER -> [i \in 1..NReq |-> FALSE]]
 
 -----------------------------------------------------------------------------
 \* initial configurations (built by the driver with the real Create* calls)
@@ -146,7 +151,7 @@ Init == /\ seed \in SeedNames
         /\ ac = [t \in Tokens |-> "none"]
         /\ tc = [t \in Tokens |-> NoSnap]
         /\ pcache = [t \in Tokens |-> NoDec]
-        /\ obs = [t \in Tokens |-> [authn |-> FALSE, d |-> [i \in 1..NReq |-> FALSE]]]
+        /\ obs = [t \in Tokens |-> [authn |-> FALSE, stored |-> FALSE, d |-> [i \in 1..NReq |-> FALSE]]]
         /\ phase = "check" /\ pending = ""
         /\ hist = <<>> /\ expect = <<>>
 
@@ -198,6 +203,13 @@ UpdateOrg(o, en) == /\ org[o] # "absent" /\ org' = [org EXCEPT ![o] = en]
 DeleteOrg(o) == /\ org[o] # "absent" /\ org' = [org EXCEPT ![o] = "absent"]
                 /\ DropTeams({g \in Teams : team[g].st # "absent" /\ team[g].org = o})
                 /\ UNCHANGED <<tok, ac>> /\ FlushAll("DeleteOrg") /\ Log(Op("DeleteOrg", o, "", "", ""))
+\* upgrade seed: a CreateOrganization command for the NAME of an organization that exists locally
+\* (created in direct mode) is applied under a different, FSM-stamped id: ApplyCreateOrganization
+\* re-aligns the row (DELETE by name + INSERT), which cascade-deletes the teams, roles, measurement
+\* permissions and memberships of the local organization.  Last mutator of a history.
+ReseedOrg(o) == /\ org[o] # "absent" /\ Len(hist) = MaxOps - 1 /\ org' = [org EXCEPT ![o] = "on"]
+                /\ DropTeams({g \in Teams : team[g].st # "absent" /\ team[g].org = o})
+                /\ UNCHANGED <<tok, ac>> /\ FlushAll("ReseedOrg") /\ Log(Op("ReseedOrg", o, "", "", ""))
 CreateTeam(g, o) == /\ team[g].st = "absent" /\ org[o] # "absent"
                     /\ team' = [team EXCEPT ![g] = [st |-> "on", org |-> o]]
                     /\ UNCHANGED <<org, role, mp, mem, tok, ac>> /\ FlushAll("CreateTeam") /\ Log(Op("CreateTeam", g, o, "", ""))
@@ -242,7 +254,7 @@ DeleteToken(t) == /\ tok[t].st # "gone" /\ tok' = [tok EXCEPT ![t].st = "gone"]
 
 Mutate ==
     /\ phase = "mutate" /\ Len(hist) < MaxOps
-    /\ \/ \E o \in Orgs : CreateOrg(o) \/ DeleteOrg(o) \/ \E en \in {"on", "off"} : UpdateOrg(o, en)
+    /\ \/ \E o \in Orgs : CreateOrg(o) \/ DeleteOrg(o) \/ ReseedOrg(o) \/ \E en \in {"on", "off"} : UpdateOrg(o, en)
        \/ \E g \in Teams : \/ \E o \in Orgs : CreateTeam(g, o)
                            \/ \E en \in {"on", "off"} : UpdateTeam(g, en)
                            \/ DeleteTeam(g)
@@ -259,22 +271,25 @@ Mutate ==
 \* the round of checks issued by the driver: VerifyToken, then CheckPermission for the whole
 \* matrix (miss, hit, batch give the same answer in the model: the first call fills the caches)
 Answer(t) ==
-    LET authn == ac[t] # "none" \/ tok[t].st = "on"
-        perms == IF ac[t] # "none" THEN ac[t] ELSE tok[t].perms
-        snap  == IF tc[t].valid THEN tc[t] ELSE Load(t)
-        d     == IF pcache[t].valid THEN pcache[t].d ELSE [i \in 1..NReq |-> PolicyOn(snap, perms, ReqOf(i))]
-    IN [authn |-> authn, perms |-> perms, snap |-> snap, d |-> d]
+    LET authn  == ac[t] # "none" \/ tok[t].st = "on"
+        stored == ~authn /\ tok[t].st = "off"           \* checked with the stored TokenInfo (enabled = false)
+        perms  == IF ac[t] # "none" THEN ac[t] ELSE tok[t].perms
+        snap   == IF tc[t].valid THEN tc[t] ELSE Load(t)
+        d      == IF pcache[t].valid THEN pcache[t].d
+                  ELSE IF authn THEN [i \in 1..NReq |-> PolicyOn(snap, perms, ReqOf(i))]
+                                ELSE [i \in 1..NReq |-> PolicyOff(snap, perms, ReqOf(i))]
+    IN [authn |-> authn, stored |-> stored, asked |-> authn \/ stored, perms |-> perms, snap |-> snap, d |-> d]
 
 CheckAll ==
     /\ phase = "check"
     /\ phase' = "mutate"
     /\ UNCHANGED <<org, team, role, mp, mem, tok, pending, seed, hist>>
     /\ LET ans == [t \in Tokens |-> Answer(t)] IN
-       /\ obs'    = [t \in Tokens |-> [authn |-> ans[t].authn,
-                                       d |-> IF ans[t].authn THEN ans[t].d ELSE [i \in 1..NReq |-> FALSE]]]
+       /\ obs'    = [t \in Tokens |-> [authn |-> ans[t].authn, stored |-> ans[t].stored,
+                                       d |-> IF ans[t].asked THEN ans[t].d ELSE [i \in 1..NReq |-> FALSE]]]
        /\ ac'     = [t \in Tokens |-> IF ans[t].authn THEN ans[t].perms ELSE "none"]
-       /\ tc'     = [t \in Tokens |-> IF ans[t].authn THEN ans[t].snap ELSE tc[t]]
-       /\ pcache' = [t \in Tokens |-> IF ans[t].authn THEN [valid |-> TRUE, d |-> ans[t].d] ELSE pcache[t]]
+       /\ tc'     = [t \in Tokens |-> IF ans[t].asked THEN ans[t].snap ELSE tc[t]]
+       /\ pcache' = [t \in Tokens |-> IF ans[t].asked THEN [valid |-> TRUE, d |-> ans[t].d] ELSE pcache[t]]
        /\ expect' = IF Emit THEN Append(expect, [t \in Tokens |-> Truth(t)]) ELSE expect
 
 Stop == phase = "mutate" /\ Len(hist) = MaxOps /\ UNCHANGED vars
